@@ -95,6 +95,7 @@ Build(d, inh) ==
       verArgs == IF S("disable_version_flag") \/ ~hasVersion THEN <<>> ELSE <<VersionArg>>
       args == AssignIdx(own \o inherited \o helpArgs \o verArgs, 1)
   IN [name |-> d.name, aliases |-> d.aliases, short_flag |-> d.short_flag, long_flag |-> d.long_flag,
+      long_flag_aliases |-> d.long_flag_aliases, short_flag_aliases |-> d.short_flag_aliases,
       s |-> [n \in DOMAIN d.s |-> S(n)] @@ [eff_disable_help_subcommand |-> disHelpSub],
       gs |-> [n \in GlobalSettingNames |-> S(n)],
       hasVersion |-> hasVersion,
@@ -132,8 +133,9 @@ HasPositionals(c) == Positionals(c) # <<>>
 PositionalCount(c) == Len(Positionals(c))
 \* every subcommand as [name, aliases, short_flag, long_flag], the auto help subcommand last
 SubView(c) == [i \in 1..Len(c.subs) |-> [name |-> c.subs[i].name, aliases |-> c.subs[i].aliases,
-                                          short_flag |-> c.subs[i].short_flag, long_flag |-> c.subs[i].long_flag, auto |-> FALSE, i |-> i]]
-              \o (IF c.autoHelpSub THEN <<[name |-> HELP, aliases |-> <<>>, short_flag |-> <<>>, long_flag |-> <<>>, auto |-> TRUE, i |-> 0]>> ELSE <<>>)
+                                          short_flag |-> c.subs[i].short_flag, long_flag |-> c.subs[i].long_flag,
+                                          lfa |-> c.subs[i].long_flag_aliases, sfa |-> c.subs[i].short_flag_aliases, auto |-> FALSE, i |-> i]]
+              \o (IF c.autoHelpSub THEN <<[name |-> HELP, aliases |-> <<>>, short_flag |-> <<>>, long_flag |-> <<>>, lfa |-> <<>>, sfa |-> <<>>, auto |-> TRUE, i |-> 0]>> ELSE <<>>)
 HasSubcommands(c) == SubView(c) # <<>>
 
 \* ArgAction / ValueRange helpers (range.rs)
